@@ -10,11 +10,19 @@
    identifier texts, parsing the printed text gives the pattern back and leaves the table unchanged
    (C18_roundtrip_text).  The side conditions are exactly the "prints unambiguously" clause of the
    property; module RoundTrip.Examples proves that each of them is needed.
-   NOT PROVED: the multi-pattern round trip and totality of the tokenizer beyond its structural
-   recursion (it can fail only through Slot::named, C17).  Per run: correspondence of parser/printer
+   Also PROVED (Parse/MultiRoundTrip.v): the MULTI-PATTERN round trip, both build modes: for every
+   signature, every table satisfying the C17 invariant and every well-formed multi-pattern (each
+   equation: a well-formed node, as many child variables as applied-id fields, every atom an
+   identifier text that contains no ',' and no "==" - exactly the texts on which `split(",")` /
+   `split("==")` cut in the wrong place, see MultiRoundTrip.MultiExamples) parsing the printed text
+   gives the multi-pattern back and leaves the table unchanged (C18_multi_roundtrip); and TOTALITY at
+   text level: tokenizer, Pattern::parse and MultiPattern::parse never yield a panic value on any
+   text in a release build, and in a debug build as long as the slot table has room for the names of
+   the text (|table| + |text| <= 2^30; beyond that Slot::named overflows, C17 - witness
+   multi_debug_overflow).  Per run: correspondence of parser/printer
    model and implementation (generated values; truncated, spliced, mutated texts) and the
    round-trip / arity / no-panic predicate on the implementation's own output. *)
-From SE Require Import Parse.Parser Parse.ParserFacts Parse.ArityFacts Parse.RoundTrip Parse.ParseMachine Lang.LangMachine Slots.SlotFacts.
+From SE Require Import Parse.Parser Parse.ParserFacts Parse.ArityFacts Parse.RoundTrip Parse.MultiRoundTrip Parse.ParseMachine Lang.LangMachine Slots.SlotFacts.
 
 Theorem C18_parser_total : forall strict S tok,
   match parse_tokens false strict S tok with PPanic _ => False | _ => True end.
@@ -34,6 +42,32 @@ Theorem C18_roundtrip_text : forall S st, TInv st -> forall p, wf_pat S p -> wf_
   parse_pattern_text false true false S st (print_pattern S st p) = POk (p, st).
 Proof. exact roundtrip_text. Qed.
 Print Assumptions C18_roundtrip_text.
+
+Theorem C18_roundtrip_text_any : forall S st, TInv st -> forall debug p, wf_pat S p -> wf_text S st p ->
+  parse_pattern_text false debug false S st (print_pattern S st p) = POk (p, st).
+Proof. exact roundtrip_text_any. Qed.
+Print Assumptions C18_roundtrip_text_any.
+
+(* multi-patterns: round trip (table unchanged, hence in particular only extended) and totality *)
+Theorem C18_multi_roundtrip : forall S st, TInv st -> forall debug m, wf_mpat S st m ->
+  parse_multipattern_text false debug false S st (print_multipattern false S st m) = POk (m, st).
+Proof. exact multi_roundtrip. Qed.
+Print Assumptions C18_multi_roundtrip.
+
+Theorem C18_multi_total : forall debug strict S st s,
+  debug = false \/ N.of_nat (List.length (named_vec st) + List.length s) <= two30 ->
+  match parse_multipattern_text false debug strict S st s with PPanic _ => False | _ => True end.
+Proof. exact multi_total. Qed.
+Print Assumptions C18_multi_total.
+
+Theorem C18_pattern_text_total : forall debug strict S st s,
+  debug = false \/ N.of_nat (List.length (named_vec st) + List.length s) <= two30 ->
+  match parse_pattern_text false debug strict S st s with PPanic _ => False | _ => True end.
+Proof.
+  intros d strict S st s R. pose proof (parse_pattern_text_total d strict S st s R) as H.
+  destruct (parse_pattern_text false d strict S st s) as [[p st']|e|x]; [exact I|exact I|exact H].
+Qed.
+Print Assumptions C18_pattern_text_total.
 
 Theorem C18_node_syntax_roundtrip : forall S nd, node_has S nd = true -> unambiguous S nd ->
   from_syntax false S (to_syntax S nd) = Some nd.
